@@ -17,7 +17,8 @@ import circuitgraph as cg
 RULE = ("~70 call recipes (every function of tx, props, sat, io writers, utils.lint and the read-only Circuit "
         "methods, incl. argument shapes that raise) x seeded random lint-clean circuits of three classes "
         "(blackbox-free acyclic, with flop blackboxes, cyclic); non-trivial = the call returned (or raised) on a "
-        "circuit with >=1 gate; distinct = distinct (recipe, circuit)")
+        "circuit with >=1 gate; distinct = distinct (recipe, circuit)"
+        "; half of the flop circuits use a cell with two output pins (q, qn); the snapshot covers the pin sets of every registered BlackBox object")
 BOUND = "circuits <= 12 nodes; 4/16 hash seeds"
 
 
@@ -164,7 +165,7 @@ def cases(tier, seed):
         circuits["comb"].append(gen.random_circuit(rng, n_in=rng.randint(2, 3), n_gates=rng.randint(2, 6), max_fanin=3,
                                                    p_const=0.2, p_out=0.3, allow_input_output=rng.random() < 0.2))
         circuits["bb"].append(gen.random_circuit(rng, n_in=rng.randint(2, 3), n_gates=rng.randint(2, 5), max_fanin=3,
-                                                 n_bb=rng.randint(1, 2), bb_clk=True, p_out=0.3))
+                                                 n_bb=rng.randint(1, 2), bb_clk=True, bb_qn=(i % 2 == 1), p_out=0.3))
         circuits["cyc"].append(gen.random_circuit(rng, n_in=rng.randint(1, 3), n_gates=rng.randint(3, 6), max_fanin=3,
                                                   cyclic=rng.randint(1, 2), p_out=0.3))
     # hand-made shapes that exercise the delicate sites: chain whose last gate's cone is the whole circuit,
